@@ -147,10 +147,11 @@ def run(prop, tier, seed, replay=None):
     elif broken:
         # a proof obligation or the correspondence no longer checks and the search found no failing input
         search_hits = []
-        if hasattr(mod, 'plan_search'):
-            sres = core.run_items('checks.' + prop, mod.plan_search(tier, seed, broken))
-            for r in sres:
-                search_hits.extend(h for h in r.get('hits', []) if not core.match_known(prop, h, known))
+        # the search for a concrete failing input: the module's targeted plan if it has one, else a second stream of scenarios (other seed)
+        splan = mod.plan_search(tier, seed, broken) if hasattr(mod, 'plan_search') else mod.plan(tier, seed + 7919)
+        sres = core.run_items('checks.' + prop, splan)
+        for r in sres:
+            search_hits.extend(h for h in r.get('hits', []) if not core.match_known(prop, h, known))
         if search_hits:
             h = search_hits[0]
             try:
